@@ -24,7 +24,7 @@ def mut(mid, prop, fname, old, new, note='', scope=None, repl=None):
 
 
 PREFIX = {'c20-linear-fit-memo': ('logger = logging.getLogger(__name__)', 'logger = logging.getLogger(__name__)\n_FIT_MEMO = {}'),
-          'c20-smooth-ranking-last-result': ('logger = logging.getLogger(__name__)', 'logger = logging.getLogger(__name__)\n_LAST = []')}
+          'c20-smooth-ranking-running-peak': ('logger = logging.getLogger(__name__)', 'logger = logging.getLogger(__name__)\n_LAST = []')}
 
 
 def apply_mutant(m, src):
@@ -167,9 +167,6 @@ mut('c20-linear-fit-memo', 'C20', 'linear_fit.py',
     "    d = x[0] - x[-1]\n    if d != 0:\n        m = (y[0] - y[-1])/(x[0] - x[-1])\n        b = y[0] - (m*x[0])\n        return (b, m)",
     "    key = (len(x), float(x[0]), float(x[-1]))\n    if key in _FIT_MEMO:\n        return _FIT_MEMO[key]\n    d = x[0] - x[-1]\n    if d != 0:\n        m = (y[0] - y[-1])/(x[0] - x[-1])\n        b = y[0] - (m*x[0])\n        _FIT_MEMO[key] = (b, m)\n        return (b, m)",
     'module-level memo keyed by the x range only', )
-mut('c20-rdp-ravel-x', 'C20', 'rdp.py',
-    "        removed.append([left,len(pt)-2])", "        removed.append([left,len(points.ravel()[2*left:2*right+2:2])-2])",
-    'compute_removed_points counts points through ravel() (C-order assumption; view of F-ordered data is a copy in another order)')
 mut('c20-single-linkage-flat', 'C20', 'clustering.py',
     "    length = points[-1, 0] - points[0, 0]\n\n    # First Point is a cluster\n    clusters.append(cluster_index)\n\n    for i in range(1, len(points)):\n        distance = math.fabs(points[i][0]-points[i-1][0])/length",
     "    length = points[-1, 0] - points[0, 0]\n\n    # First Point is a cluster\n    clusters.append(cluster_index)\n\n    flat = points.ravel(order='K')\n    for i in range(1, len(points)):\n        distance = math.fabs(flat[2*i]-flat[2*i-2])/length",
@@ -182,18 +179,13 @@ mut('c20-min-point-default-append', 'C20', 'rdp.py',
     'min_point_rdp appends to its (default or caller-supplied) threshold list')
 mut('c20-filter-clusters-renamed-rank', 'C20', 'postprocessing.py',
     "                    rankings = kr.rank(rankings)", "                    rankings = kr.ranks(rankings)", 'call site not updated after a rename')
-mut('c20-worst-knees-in-place', 'C20', 'postprocessing.py',
-    "        filtered_knees = []\n        filtered_knees.append(knees[0])\n        h_min = points[knees[0]][1]",
-    "        filtered_knees = []\n        filtered_knees.append(knees[0])\n        h_min = points[knees[0]][1]\n        if isinstance(knees, list): knees.sort()",
-    'placeholder: no effect on sorted lists (expected to survive: not a visible change)')
-mut('c20-getpoints-normalise-in-place', 'C20', 'zmethod.py',
-    "    x = points[:, 0]\n    y = points[:, 1]\n\n    yd2 = grad.csd(x, y)\n    z_yd2 = uzscore.zscore_array(x, yd2)",
-    "    x = points[:, 0]\n    y = points[:, 1]\n    y -= 0.0\n    x += 0.0\n\n    yd2 = grad.csd(x, y)\n    z_yd2 = uzscore.zscore_array(x, yd2)",
-    'in-place no-op arithmetic on argument views (changes -0.0 only; expected to survive unless -0.0 present)')
 mut('c20-kneedle-differences-partial', 'C20', 'kneedle.py',
     "        for i in range(0, len(points)):\n            rv[i][0] = points[i][0]\n            rv[i][1] = points[i][0] + points[i][1]  # x + y",
     "        for i in range(1, len(points)):\n            rv[i][0] = points[i][0]\n            rv[i][1] = points[i][0] + points[i][1]  # x + y",
     'differences() never writes row 0 on the decreasing/clockwise branch (np.empty garbage)')
-mut('c20-smooth-ranking-last-result', 'C20', 'knee_ranking.py',
-    "    sum_weights = np.sum(weights)\n    if sum_weights != 0:", "    sum_weights = np.sum(weights)\n    if sum_weights == 0 and _LAST:\n        sum_weights = _LAST[-1]\n    _LAST.append(sum_weights)\n    if sum_weights != 0:",
-    'falls back to the previous call\'s normaliser (module-level state) when the weights sum to zero')
+mut('c20-smooth-ranking-running-peak', 'C20', 'knee_ranking.py',
+    "    peak = np.max(y[knees])", "    peak = max(float(np.max(y[knees])), _LAST[-1]) if _LAST else float(np.max(y[knees]))\n    _LAST.append(peak)",
+    'smooth_ranking keeps a running maximum of the peak across calls (module-level state)')
+mut('c20-cm-ravel-memory-order', 'C20', 'evaluation.py',
+    "    knees_points_x = points[knees][:, 0]", "    knees_points_x = points.ravel(order='K')[2*np.asarray(knees, dtype=int)]",
+    'cm() reads the x column through memory order (wrong for Fortran-ordered or strided points)')
